@@ -1,11 +1,13 @@
 (* C09 -- each new stream gets exactly one attachment decision, honouring the attacher.
    Only statements; each closed by `exact <lemma of Proofs/C09Proofs.v>`.
 
-   Full statement (kept visible; Spec/C09.v's oracle is its executable form):
+   Full statement (Spec/C09.v's oracle is its executable form), PROVED below as C09_oracle_holds:
      forall ops, wf ops = true -> oracle ops (run ops) = true
-   It is FALSE of the faithful model on three input classes (open findings C09-F1..F3, witnesses
-   C09_*_refuted below).  Model/Attach.v: step/run = the code as it stands; Spec/C09.v: wf = what Tor
-   can emit and the documented API allows, oracle = the property.
+   No input class is excluded any more: the three findings this check produced (C09-F1 via-circuit stream
+   after its circuit closed, C09-F2 target merely containing ".exit", C09-F3 PriorityAttacher heap-array
+   order) were repaired in /repo (f392c3b, abe169c, c8582a8) and the model follows the repaired code.
+   Model/Attach.v: step/run = the code as it stands; Spec/C09.v: wf = what Tor can emit and the
+   documented API allows, oracle = the property.
 
    What is proved for ALL histories (no well-formedness needed unless stated):
      - never two decisions for one stream                       C09_one_decision_per_stream, C09_step_at_most_one
@@ -15,10 +17,11 @@
      - source-address matching is exact                          C09_via_unrelated_stream, C09_via_matching_stream,
                                                                  C09_via_only_registered_circuit, C09_registration_*
      - one attacher slot, SETCONF __LeaveStreamsUnattached        C09_second_attacher_refused, C09_install_*, C09_remove_*
-   The "exactly one, and the right one" direction for whole histories is the oracle theorem
-   C09_oracle_holds_partial (see there for what it covers). *)
+   The whole property ("exactly one, and the right one", consultation order, reports, SETCONF, connect()
+   outcomes) for whole histories is the oracle theorem C09_oracle_holds: for EVERY well-formed history the
+   Spec oracle accepts the model's own trace. *)
 From Coq Require Import List Bool Ascii Arith NArith String.
-From TxVerif Require Import Lib.Bytes Lib.Dec Spec.C09 Model.Attach Proofs.C09Proofs.
+From TxVerif Require Import Lib.Bytes Lib.Dec Spec.C09 Model.Attach Proofs.C09Proofs Proofs.C09Sort Proofs.C09Oracle.
 Import ListNotations.
 Open Scope N_scope.
 
@@ -83,7 +86,7 @@ Theorem C09_via_only_registered_circuit : forall s sid src,
        src = SrcIp ip port /\ table_get (ip, port) (table s) = Some (oid, k) /\
        let s1 := with_table s (table_del (ip, port) (table s)) in
        (circ_attach s sid src = (with_oos s1, [])
-        \/ exists r a, (a = AKNone \/ a = AKCirc oid) /\
+        \/ exists r a, (a = AKDoNot \/ a = AKCirc oid) /\
                        circ_attach s sid src = then_ (att_fire s1 k r) (fun s2 => issue s2 sid a)).
 Proof. exact circ_attach_only_registered. Qed.
 Print Assumptions C09_via_only_registered_circuit.
@@ -116,21 +119,43 @@ Theorem C09_built_implies_known : forall ops, cinv (snd (run_from st0 ops)).
 Proof. exact (fun ops => reachable_cinv ops st0 cinv0). Qed.
 Print Assumptions C09_built_implies_known.
 
-(* ---- the full statement is false on the input classes of the open findings ---- *)
-Theorem C09_via_circuit_gone_refuted :
-  exists ops, wf ops = true /\ run_oos ops = false /\ oracle ops (run ops) = false.
-Proof. exact (ex_intro _ w_via_closed via_closed_refuted). Qed.
-Print Assumptions C09_via_circuit_gone_refuted.
+(* ---- the property itself, on whole histories: all interleavings of CIRC/STREAM events, set_attacher,
+   PriorityAttacher changes, late answers, concurrent via-circuit connections, Tor's replies.
+   wf: what Tor can emit + the documented API.  Proved by a simulation between the model state and the
+   checker state (Proofs/C09Oracle.v: record R, one lemma per operation). ---- *)
+Theorem C09_oracle_holds : forall ops,
+  wf ops = true -> oracle ops (run ops) = true /\ run_oos ops = false.
+Proof. exact oracle_holds. Qed.
+Print Assumptions C09_oracle_holds.
 
-Theorem C09_exit_inside_name_refuted :
-  exists ops, wf ops = true /\ run_oos ops = false /\ oracle ops (run ops) = false.
-Proof. exact (ex_intro _ w_exit_inside exit_inside_refuted). Qed.
-Print Assumptions C09_exit_inside_name_refuted.
+(* the former witness of C09-F1 (the stream of a via-circuit connection appears after its circuit closed),
+   repaired in /repo by f392c3b: nothing is sent for that stream any more, connect() fails *)
+Theorem C09_via_circuit_gone_now_accepted :
+  wf w_via_closed = true /\ run_oos w_via_closed = false /\ oracle w_via_closed (run w_via_closed) = true.
+Proof. exact via_closed_accepted. Qed.
+Print Assumptions C09_via_circuit_gone_now_accepted.
 
-Theorem C09_priority_heap_order_refuted :
-  exists ops, wf ops = true /\ run_oos ops = false /\ oracle ops (run ops) = false.
-Proof. exact (ex_intro _ w_prio_heap prio_heap_refuted). Qed.
-Print Assumptions C09_priority_heap_order_refuted.
+(* the former witnesses of C09-F2 (target merely containing ".exit") and C09-F3 (PriorityAttacher heap-array
+   order), repaired in /repo by abe169c and c8582a8, are accepted *)
+Theorem C09_exit_inside_name_now_accepted :
+  wf w_exit_inside = true /\ oracle w_exit_inside (run w_exit_inside) = true.
+Proof. exact exit_inside_accepted. Qed.
+Print Assumptions C09_exit_inside_name_now_accepted.
+
+Theorem C09_priority_order_now_accepted :
+  wf w_prio_heap = true /\ oracle w_prio_heap (run w_prio_heap) = true.
+Proof. exact prio_heap_accepted. Qed.
+Print Assumptions C09_priority_order_now_accepted.
+
+(* sorting the heap array by (priority, counter) yields the Spec's order -- priority, ties in insertion
+   order -- for every list of entries and whatever the array layout (any permutation) *)
+Theorem C09_priority_order : forall l i, live_js (sort_hents (hents i l)) = prio_order l.
+Proof. exact sorted_copy_is_priority_order. Qed.
+Print Assumptions C09_priority_order.
+
+Theorem C09_heappush_permutes : forall h x, Permutation.Permutation (heappush h x) (h ++ [x]).
+Proof. exact heappush_perm. Qed.
+Print Assumptions C09_heappush_permutes.
 
 (* non-vacuity: a well-formed history with two concurrent via-circuit connections, an unrelated stream in
    between, accepted by the oracle on the model's trace *)
